@@ -243,3 +243,8 @@ def _result_handled(body, block, dest):
                 if op.place is not None and op.place.local == l:
                     return "returned"
     return None
+
+
+def thorough(res):
+    from .. import engine
+    engine.sensitivity("C09", res)
